@@ -36,8 +36,10 @@ PROPERTIES = {
     },
     "C18": {
         "level": "model_checking",
-        "quick": [{"match": "VerifH_c18_.*", "timeout": 300}],
-        "thorough": [{"match": "VerifH_c18_.*", "timeout": 1500}],
+        "quick": [{"match": "VerifH_c18_.*", "timeout": 500,
+                   "shards": {"VerifH_c18_bitcount": 3, "VerifH_c18_bitpos": 3, "VerifH_c18_bitfield_cmd": 3}}],
+        "thorough": [{"match": "VerifH_c18_.*", "timeout": 3000,
+                      "shards": {"VerifH_c18_bitcount": 4, "VerifH_c18_bitpos": 4, "VerifH_c18_bitfield_cmd": 6}}],
         "bounds": {},
         "outside": [],
         "assumptions": [],
